@@ -156,6 +156,8 @@ def run(ctx):
 
 
 def replay(ctx, path):
+    import os
+    path = os.path.abspath(path)
     binary = ctx.gobuild("c24")
     T.write_facts(ctx, binary)
     out = ctx.path("one.ndjson")
